@@ -53,6 +53,7 @@ fn ref_if(vals: &[Value], k: usize, order: &mut [usize; 12]) -> (Option<usize>, 
 }
 
 /// `{"var": true}`: a literal-looking operand that ERRORS when (and only when) it is evaluated
+#[cfg(verif_replay)]
 fn poison() -> Value {
     let mut m = Map::new();
     m.insert(String::from("var"), Value::Bool(true));
@@ -108,6 +109,7 @@ pub fn if_case(k: usize) {
     let data = Value::Null;
     let mut order = [0usize; 12];
     let (sel, n) = ref_if(&vals, k, &mut order);
+    #[cfg(verif_replay)]
     let pz = poison();
     #[cfg(verif_replay)]
     let args = poisoned(&vals, &pz, k, &order, n);
@@ -148,6 +150,7 @@ pub fn andor_case(k: usize, is_and: bool) {
         }
         j += 1;
     }
+    #[cfg(verif_replay)]
     let pz = poison();
     #[cfg(verif_replay)]
     let args = poisoned(&vals, &pz, k, &order, n);
